@@ -163,3 +163,56 @@ def extra_crop(v: Verdict, tier: str):
                         lambda r, c: {"extra": "crop/uncrop", "cls": r["meta"]["cls"]},
                         what_fn=lambda r, c: f"crop/uncrop {r['meta']} shape={r['shape']}")
     v.cov["extra_crop_uncrop_records"] = n
+
+
+# --------------------------------------------------------------------------------------
+# the input contract of evaluate() (Trace_Validate.tla), attached to C01
+# --------------------------------------------------------------------------------------
+def validate_record(rng):
+    import numpy as np
+    from . import gen
+    from .rec_pipeline import default_cfg, make_evaluator
+    kind = rng.choice(["SEM", "UNM", "MAT"])
+    pred, ref = gen.rand_unmatched_pair(rng, max_vox=36)
+    dts = [np.uint8, np.uint16, np.uint32, np.uint64, np.int8, np.int32, np.int64, np.float32, np.float64, np.bool_]
+    dp = rng.choice(dts)
+    dr = dp if rng.random() < 0.8 else rng.choice(dts)
+    pred, ref = pred.astype(dp), ref.astype(dr)
+    hasneg = False
+    if np.issubdtype(dp, np.signedinteger) and dp == dr and rng.random() < 0.3:
+        pred = pred.copy()
+        pred.flat[rng.randrange(pred.size)] = -1
+        hasneg = True
+    sameshape = True
+    if rng.random() < 0.15:
+        ref = ref[..., :-1] if ref.shape[-1] > 1 else np.concatenate([ref, ref], axis=-1)
+        sameshape = False
+    isarray = True
+    args = [pred, ref]
+    if rng.random() < 0.08:
+        args[rng.randrange(2)] = args[0].tolist()
+        isarray = False
+
+    def dclass(d):
+        d = np.dtype(d)
+        return "bool" if d == np.bool_ else "uint" if np.issubdtype(d, np.unsignedinteger) else "int" if np.issubdtype(d, np.signedinteger) else "float"
+    rec = {"kind": kind, "sameshape": sameshape, "samedtype": np.dtype(dp) == np.dtype(dr), "dclass": dclass(dp), "hasneg": hasneg,
+           "isarray": isarray, "out": "ok", "meta": {"dtypes": [str(np.dtype(dp)), str(np.dtype(dr))], "shapes": [list(pred.shape), list(ref.shape)]}}
+    try:
+        import warnings
+        with quiet(), warnings.catch_warnings():
+            warnings.simplefilter("ignore")
+            make_evaluator(default_cfg(input=kind)).evaluate(args[0], args[1], verbose=False)
+    except Exception as e:  # noqa: BLE001
+        rec["out"] = "raise"
+        rec["meta"]["exception"] = f"{type(e).__name__}: {e}"[:160]
+    return rec
+
+
+def extra_input_contract(v: Verdict, tier: str):
+    rng = random.Random(seed() * 7919 + 505)
+    recs = [validate_record(rng) for _ in range(300 if tier == "quick" else 5000)]
+    n = validate_traces(v, "Trace_Validate", ["T_ValidAccepted", "T_InvalidRejected"], recs,
+                        lambda r, c: {"extra": "input-contract", "kind": r["kind"], "dclass": r["dclass"], "out": r["out"]},
+                        what_fn=lambda r, c: f"input contract {r['kind']} {r['meta']}")
+    v.cov["extra_input_contract_records"] = n
